@@ -58,6 +58,6 @@ def check(seed, tier):
         "trusted_base": TRUSTED,
     }, ["input class (Normalize!RawInClass, evaluated by TLC): dangling targets are fresh TIDs that name nothing (not TIDs of the wrong kind); "
         "TIDs are duplicated only among non-entry blocks, among defs, among jmps; only non-entry blocks are shared: no entry block is "
-        "listed twice or intraprocedurally reachable from another function; blocks end in at most two jumps (CBranch + Branch/BranchInd/Return)",
+        "listed twice or intraprocedurally reachable from another function; blocks end in at most two jumps (CBranch + Branch/BranchInd/Return/Call/CallInd/CallOther)",
         "the four passes are not modelled: any result satisfying the invariants is accepted; the graph of the result must equal Cfg!Graph(result)",
         "TIDs of raw programs never use the reserved 'Artificial Sink' names"])
